@@ -366,7 +366,26 @@ func (t *txnRun) read(a []string) (string, string) {
 		case "L":
 			req := newReq(a[2], unhx(a[3]), unhx(a[4]))
 			if s != nil {
-				return showLookupCC(s.txn.Lookup(foxWriter{newRecWriter()}, req))
+				// Reverse and the iterator's Reverse read the same state as Lookup: the transaction's own, uncommitted
+				// writes included
+				rt, cc, tsr := s.txn.Lookup(foxWriter{newRecWriter()}, req)
+				if r2, tsr2 := s.txn.Reverse(a[2], unhx(a[3]), unhx(a[4])); r2 != rt || (rt != nil && tsr2 != tsr) {
+					t.oracle("Txn.Reverse and Txn.Lookup of the same transaction disagree on " + a[2] + " " + a[3] + " " + a[4])
+				}
+				if !t.quiet {
+					var r3 *fox.Route
+					for _, r := range s.txn.Iter().Reverse(slices.Values([]string{a[2]}), unhx(a[3]), unhx(a[4])) {
+						r3 = r
+					}
+					want := rt
+					if tsr && rt != nil && !rt.IgnoreTrailingSlashEnabled() && !rt.RedirectTrailingSlashEnabled() {
+						want = nil
+					}
+					if r3 != want {
+						t.oracle("Txn.Iter().Reverse and Txn.Lookup of the same transaction disagree on " + a[2] + " " + a[3] + " " + a[4])
+					}
+				}
+				return showLookupCC(rt, cc, tsr)
 			}
 			return showLookupCC(t.f.Lookup(foxWriter{newRecWriter()}, req))
 		}
